@@ -157,4 +157,4 @@ def units(tier, seed):
         bounds={"children of one node": f"1..{wn}", "type names": wt, "positions": "with/without"},
         make=make_wide(wn, wt), replay="concrete", stubs=["none: real segment classes"],
         witnesses_required=["more_children_than_position_keys", "duplicate_types"], sharded=True, timeout_s=600 if tier == "quick" else 1800)
-        for wn, wt in ([(10, ["x", "y"])] if tier == "quick" else [(10, ["x", "y", "z"])])]
+        for wn, wt in ([(10, ["x", "y"])] if tier == "quick" else [(10, ["x", "y"]), (9, ["x", "y", "z"])])]
